@@ -290,6 +290,10 @@ class PrimitiveField(_BaseField):
             Primitive.uint32,
             Primitive.uint64,
             Primitive.float64,
+            # These have no null representation, and tagged ignorable fields of these
+            # types get a non-null implicit default.
+            Primitive.bool_,
+            Primitive.error_code,
         }:
             return False
 
